@@ -274,9 +274,7 @@ Theorem model_passes_C08_clauses_2_6 :
   forall c s st univ seen fired tr sc pcode pnc pcb,
     let k := holds_C08 seen fired tr sc (obs_of univ pcode pnc pcb s) st (obs_step univ c s st) in
     k <> 2 /\ k <> 6.
-Proof. exact (fun c s st univ seen fired tr sc pcode pnc pcb =>
-  conj (model_passes_C08_clause_2_lemma c s st univ seen fired tr sc pcode pnc pcb)
-       (model_passes_C08_clause_6_lemma c s st univ seen fired tr sc pcode pnc pcb)). Qed.
+Proof. exact model_passes_C08_clauses_2_6_lemma. Qed.
 Print Assumptions model_passes_C08_clauses_2_6.
 
 (** clause 7, the two history-wide lists (PARTIAL: the third list of clause 7 — the callbacks of
@@ -333,6 +331,24 @@ Theorem model_passes_C08_clause_5 :
     holds_C08 seen fired tr sc (obs_of univ pcode pnc pcb s) st (obs_step univ c s st) <> 5.
 Proof. exact model_passes_C08_clause_5_lemma. Qed.
 Print Assumptions model_passes_C08_clause_5.
+
+(** [model_passes_check], PARTIAL, for [check_case_C08] itself (see [model_passes_clauses_C07],
+    Props/C07.v, for the reading and the hypotheses): on the case the driver would print for the
+    MODEL, the clause [check_case_C08] answers is never 1, 2, 5, 6, 8 or 9.  NOT covered: clause 3
+    (one-shot contexts), clause 4 (the checker's schedule tracker), clause 7 as a whole (its two
+    history-wide lists are [model_passes_C08_clause_7_history]; the step-wise comparison with
+    [expected_cb] is not done), and the correspondence component. *)
+Theorem model_passes_clauses_C08 :
+  forall c steps h0 t0 l0 univ,
+    c_msvc c < 0 -> 0 <= c_tax c -> clean l0 -> NoDup (create_txhs steps) -> Forall good_step steps ->
+    In (DEP, BASE) univ -> (forall d, In d (denoms c) -> In (REQ, d) univ) ->
+    (forall pre st post, steps = pre ++ st :: post -> forall rid q, get rid (reqs (run c (init h0 t0 l0) pre)) = Some q ->
+       In (TAX, q_fd q) univ /\ In (REQ, q_fd q) univ) ->
+    ledger_of (obs_of univ 0 None [] (init h0 t0 l0)) = l0 ->
+    forall corr p k, check_case_C08 (model_case univ c h0 t0 l0 steps) = (corr, p, k) ->
+      k <> 1 /\ k <> 2 /\ k <> 5 /\ k <> 6 /\ k <> 8 /\ k <> 9.
+Proof. exact model_passes_clauses_C08_lemma. Qed.
+Print Assumptions model_passes_clauses_C08.
 
 (** ** non-vacuity: a history in which one request is answered and its sibling expires; a
     late answer to the expired one and a duplicate answer to the answered one are rejected;
